@@ -242,7 +242,8 @@ def run(chk):
         d = os.path.join(chk.tmp, "pre-" + key)
         V.copy_specs(specsrc, d)
         os.makedirs(os.path.join(d, "b"), exist_ok=True)
-        pre[key] = (V.tlc(d, module, cfg=cfg + ".cfg", deadlock=deadlock, **kw), d)
+        # short jobs on a loaded machine: C1 only and two GC threads start (much) faster than the default JVM set-up
+        pre[key] = (V.tlc(d, module, cfg=cfg + ".cfg", deadlock=deadlock, jvm=["-XX:TieredStopAtLevel=1", "-XX:ParallelGCThreads=2"], **kw), d)
     pths = [threading.Thread(target=prejob, args=("dw", "DWReplay", "DWReplayNoFilter"), kwargs=dict(workers=1, timeout=900)),
             threading.Thread(target=prejob, args=("rel", "MCTwoPC", "MC3PinnedRPC"), kwargs=dict(workers=2, timeout=900)),
             threading.Thread(target=prejob, args=("lc", "LCReplay", "LCReplayNoRetry"), kwargs=dict(workers=1, timeout=900))]
